@@ -112,7 +112,8 @@ class SsbGraphMinimizer:
                     ins = g.incident(v, IN)
                     if len(ins) == 1:
                         iv = g.es[ins[0]].source_vertex
-                        if isinstance(iv["op"], SsbLabel):
+                        # (Not for the label in front of the first operation: the routine itself starts there.)
+                        if isinstance(iv["op"], SsbLabel) and iv.index != 0:
                             # IS JUMP AND BEFORE IS LABEL:
                             vs_to_delete += self._optimize_paths__jump_after_label(g, jump=v, label=iv)
             g.delete_vertices(vs_to_delete)
@@ -741,6 +742,9 @@ class SsbGraphMinimizer:
                     in_edges = v.in_edges()
                     out_edges = v.out_edges()
                     if len(in_edges) == 0:
+                        if v.index == 0 and len(out_edges) == 1:
+                            # The routine starts here (only unreachable jumps lead to this label).
+                            continue
                         if v["op"].referenced_from_other_routine and len(out_edges) == 1:
                             # Nothing in this routine leads here (eg. the label is in front of the first operation),
                             # but another routine jumps to it.
